@@ -4,7 +4,7 @@
    produced by encoders do not.  These facts are sampled by the correspondence run. *)
 From Coq Require Import String List NArith.
 From Http Require Import Model.Bytes Model.Headers Model.Coding Model.Inflate Spec.DeflateStored
-     Proofs.Rewrite Proofs.CodingGlue Proofs.InflateC15 Proofs.InflateStored Proofs.HuffmanCanon Proofs.HuffmanFixed Proofs.CopyMatch Proofs.HuffmanFixedLZ Proofs.HuffmanKraft Proofs.HuffmanGen Proofs.HuffmanDyn.
+     Proofs.Rewrite Proofs.CodingGlue Proofs.InflateC15 Proofs.InflateStored Proofs.HuffmanCanon Proofs.HuffmanFixed Proofs.CopyMatch Proofs.HuffmanFixedLZ Proofs.HuffmanKraft Proofs.HuffmanGen Proofs.HuffmanDyn Proofs.InflateWf Proofs.DeflateStream.
 Import ListNotations.
 
 Theorem C13_decode_inverts_every_stack :
@@ -170,3 +170,45 @@ Theorem C13_dynamic_block_inverted :
     inflate_raw_model e = Some (rev (fold_left fsym_apply xs [])).
 Proof. exact dynamic_block_inverts. Qed.
 Print Assumptions C13_dynamic_block_inverted.
+
+(* ---- C13 in full, over the model of flate2: no hypothesis about the decoders is left ----
+   A DEFLATE stream is ANY sequence of stored, fixed-code and dynamic-header blocks (Ser: the bits of the
+   blocks in order; a stored block's LEN starts at a byte boundary after arbitrary padding bits; fewer than
+   8 padding bits end the stream), with any symbols and any tables the decoder accepts (block_ok).  Its
+   meaning is RFC 1951's: literals append a byte, a match copies byte by byte from `distance` back. *)
+Theorem C13_deflate_stream_inverted :
+  forall (e : bytes) (bs : list block),
+    bytes_ok e -> Ser bs (flat_map byte_bits e) -> Forall block_ok bs ->
+    inflate_fuel (fuel_for e) e = Ok (rev (fold_left block_apply bs [])) ([], []).
+Proof. exact deflate_stream_inverts. Qed.
+Print Assumptions C13_deflate_stream_inverted.
+
+(* every stack of gzip (RFC 1952, any member header the parser accepts), zlib (RFC 1950, any valid header)
+   and bare deflate codings, by ANY conforming encoder (any level, any block structure, any header
+   options), over every body, is inverted by decode_body *)
+Theorem C13_every_rfc_encoding_inverted :
+  forall (hs : list header) (fs : list format) (d e : bytes),
+    Enc rfc_enc fs d e ->
+    header_tokens hs CONTENT_ENCODING = map coding_token fs ->
+    exists hs', decode_body gunzip_model inflate_raw_model inflate_zlib_model hs e = Some (hs', d).
+Proof. exact decode_inverts_every_rfc_stack. Qed.
+Print Assumptions C13_every_rfc_encoding_inverted.
+
+(* non-vacuity: zlib (Z_FIXED) on "abc" with a sync flush in the middle: a non-final fixed block, an empty
+   non-final stored block behind 3 padding bits, a final empty fixed block and 6 padding bits *)
+Example C13_three_block_stream :
+  let e := [74; 76; 74; 6; 0; 0; 0; 255; 255; 3; 0]%N in
+  let bs := [BFixed [FLit 97; FLit 98; FLit 99]; BStored []; BFixed []]%N in
+  bytes_ok e /\ Forall block_ok bs /\ Ser bs (flat_map byte_bits e) /\
+  rev (fold_left block_apply bs []) = [97; 98; 99]%N.
+Proof.
+  split; [repeat constructor|]. split.
+  - repeat constructor; vm_compute; discriminate.
+  - split; [|vm_compute; reflexivity].
+    change (flat_map byte_bits [74; 76; 74; 6; 0; 0; 0; 255; 255; 3; 0]%N)
+      with ([false] ++ huff_bits (BFixed [FLit 97; FLit 98; FLit 99]%N)
+            ++ ([false; false; false] ++ [false; false; false] ++ flat_map byte_bits (stored_bytes [])
+                ++ ([true] ++ huff_bits (BFixed []) ++ [false; false; false; false; false; false]))).
+    apply Ser_huff; [reflexivity|]. apply Ser_stored; [simpl; repeat constructor | reflexivity |].
+    apply Ser_last_huff; [reflexivity | simpl; repeat constructor].
+Qed.
